@@ -33,7 +33,7 @@ func c19(c *Ctx) {
 	}
 	c.OnlyIn("only-door/upstream-call", inProxy(rt), []string{pat(ptt)}, 1,
 		"among ProxyServer methods only proxyToTarget talks to the upstream application", "any other door to the application bypasses the read-your-writes wait and the replica write refusal")
-	c.OnlyInScope("only-door/proxyToTarget-callers", []string{"http"}, pttCall, []string{pat(sh), pat(sr), pat(snr)}, 5,
+	c.OnlyInScope("only-door/proxyToTarget-callers", []string{"http"}, pttCall, []string{pat(sh), pat(sr), pat(snr)}, 4,
 		"proxyToTarget is called only from serveHTTP (passthrough), serveRead and serveNonRead", "a new caller would forward requests without classification")
 
 	// classify
@@ -68,12 +68,12 @@ func c19(c *Ctx) {
 	txidRe := `(?:0|` + pat(`ltx.ParseTXID(net/http.(*Request).Cookie(p2, "__txid")#0.Value)#0`) + `)`
 	_ = txid
 	db := pat("litefs.(*Store).DB(p0.store, p0.DBName)")
-	c.GuardedPaths("ryw/wait", sr, pttCall, [][]*Guard{{
-		G(`\(0 == `+txidRe+`\)`, true),
-		G(`\(`+db+` == nil\)`, true),
-		G(`\(`+pat("litefs.(*DB).Pos(")+db+`\)\.TXID < `+txidRe+`\)`, false),
-	}}, 3, "in serveRead the upstream call happens only when there is no cookie txid, no tracked database, or the tracked database's position has reached the cookie's txid (pos.TXID >= txid)",
-		"a read carrying a transaction-ID cookie would be served from a replica that has not yet applied that transaction")
+	reached := G(`\(`+pat("litefs.(*DB).Pos(")+db+`\)\.TXID < `+txidRe+`\)`, false)
+	c.GuardedPaths("ryw/wait", sr, pttCall, [][]*Guard{
+		{G(`\(0 == `+txidRe+`\)`, true), reached},
+		{G(`\(0 == `+txidRe+`\)`, true), G(`\(`+db+` == nil\)|\(nil == `+db+`\)`, false)},
+	}, 2, "in serveRead the upstream call happens only when there is no cookie txid, or the tracked database exists on this node and its position has reached the cookie's txid (pos.TXID >= txid)",
+		"a read carrying a transaction-ID cookie would be served from a replica that has not yet applied that transaction - or has not even received the database")
 	c.NoPathFromEdge("ryw/timeout-no-forward", sr, GP("(0 == select#0)", true), pttCall, 1,
 		"after the wait context is done the request is never forwarded", "a timed-out wait must end in 504, not in a stale read")
 	c.After("ryw/timeout-504", sr, p.PlainCalls("context.Context.Done"), Any(pttCall, p.CallWhere("net/http.Error", `, 504\)$`)), IsReturn, 1,
